@@ -41,6 +41,13 @@ CLAIMED = {
          'calls under scopes, singleton uses, colliding constants in interactive mode, failed operations) followed by clear_config and a '
          'tail of observers and calls that is also run in a fresh interpreter with only the registrations.',
          BASE + 'config_str / operative_config_str are compared structurally through the stores here; their text is C06/C07.'),
+ 'C04': ('Theorems ref_plain / ref_scope / macro_is_scoped_ref / caller_supplied_not_evaluated / call_preserves_config (frame of the '
+         'fuel-indexed evaluator, by induction over all five mutually recursive evaluation functions) / query_after_call hold for every '
+         'store, value nesting, scope and fuel; the evaluator is tied to gin.config by comparing the complete per-target call log (scope '
+         'seen, values received, fresh result indices) of nested reference DAGs under random ambient scopes and caller overrides, with '
+         'every probe mutating the containers it receives and the store re-observed afterwards.',
+         BASE + 'Partial: aliasing cannot be exhibited by the immutable model (it is detected as disagreement after mutation); deepcopy '
+         'traversal order is mirrored; each textual reference occurrence is a distinct object; acyclic configurations.'),
  'C07': ('Theorems operative_param (exact per-parameter characterisation of what one call records) / operative_excludes_caller_supplied / '
          'operative_only_supplied (binding, or configurable representable default) / call_records (entry update, frame for never-called '
          'configurables) / rejected_call_records_nothing hold for every signature, lists, store, scope and argument split; the mirror is '
